@@ -292,6 +292,10 @@ namespace sim
 			return;
 		}
 
+		// the connection may have been closed (and the buffer reset) while this
+		// completion was already queued
+		if (int(bytes_transferred) > m_num_server_out_bytes) return;
+
 		memmove(&m_server_out_buffer[0], &m_server_out_buffer[bytes_transferred]
 			, m_num_server_out_bytes - bytes_transferred);
 		m_num_server_out_bytes -= int(bytes_transferred);
